@@ -77,7 +77,13 @@ pub struct Decl {
 #[derive(Clone, Debug, PartialEq, Eq, Hash, PartialOrd, Ord, Serialize, Deserialize)]
 pub enum DeclBody {
     Struct(Record),
-    Enum { sorted: bool, variants: Vec<Variant> },
+    Enum {
+        sorted: bool,
+        variants: Vec<Variant>,
+        /// evolution steps declared on the enum itself (its own version; the constructor then lives in chunk 0)
+        #[serde(default)]
+        steps: Vec<Step>,
+    },
 }
 
 #[derive(Clone, Debug, PartialEq, Eq, Hash, PartialOrd, Ord, Serialize, Deserialize)]
@@ -186,7 +192,7 @@ impl Decl {
     /// constructor indices: position in declaration order, or rank by name when sorted. Transient constructors count.
     pub fn ctor_index(&self, decl_idx: usize) -> usize {
         match &self.body {
-            DeclBody::Enum { sorted, variants } => {
+            DeclBody::Enum { sorted, variants, .. } => {
                 if *sorted {
                     let mut names: Vec<(&str, usize)> = variants.iter().enumerate().map(|(i, v)| (v.name.as_str(), i)).collect();
                     names.sort(); // stable, by name (names are unique)
